@@ -50,12 +50,43 @@ def loop_body(f, header_bb):
     return body, some_bb[0]
 
 
+def _iter_source_local(f, op, depth=0):
+    """the collection local an iterator operand was created from (through into_iter / iter / adaptors / refs)"""
+    l = op_local(op)
+    if l is None or depth > 10:
+        return None
+    for d in f.whole_defs(l):
+        if d[0] == "call" and d[2]["args"]:
+            res = d[2].get("res") or ""
+            if re.search(r"::(into_iter|iter|iter_mut|map|filter|cloned|copied|enumerate|rev|skip|take|chain|peekable)$", res) or "IntoIterator" in res:
+                r0 = _iter_source_local(f, d[2]["args"][0], depth + 1)
+                return r0 if r0 is not None else _root_local(f, d[2]["args"][0])
+            return None
+        if d[0] == "assign" and d[3][0] == "use":
+            return _iter_source_local(f, d[3][1], depth + 1)
+        if d[0] == "assign" and d[3][0] == "ref":
+            return _iter_source_local(f, ["cp", d[3][2]], depth + 1)
+    return _root_local(f, op)
+
+
 def unordered_vectors(crate, f):
     """locals (Vec) filled in the iteration order of an S1 source in f: {local: (source description, span)}"""
     out = {}
+    # vectors collected from an S1 iterator and not sorted: iterating them is iterating in hash order
+    tainted = {}
     for bb, c in f.calls():
+        if c.get("fn") == "std::iter::Iterator::collect" and _is_s1(c.get("targs", [])):
+            dl = place_local(c["dest"])
+            if "std::vec::Vec<" in f.local_ty(dl) and not sort_blocks(f, dl):
+                tainted[dl] = c
+    for bb, c in f.calls():
+        via_tainted = None
+        if c.get("fn") == "std::iter::Iterator::next" and c["span"][4].startswith("desugar:ForLoop") and not _is_s1(c.get("targs", [])) and tainted:
+            src = _iter_source_local(f, c["args"][0])
+            if src in tainted:
+                via_tainted = tainted[src]
         # for-loops over an S1 iterator
-        if c.get("fn") == "std::iter::Iterator::next" and c["span"][4].startswith("desugar:ForLoop") and _is_s1(c.get("targs", [])):
+        if c.get("fn") == "std::iter::Iterator::next" and c["span"][4].startswith("desugar:ForLoop") and (_is_s1(c.get("targs", [])) or via_tainted):
             body, _ = loop_body(f, bb)
             # nested loops over ordered collections inside still run per outer element: pushes anywhere in the body count
             for b2 in body:
@@ -68,7 +99,7 @@ def unordered_vectors(crate, f):
                         or res.endswith("as std::iter::Extend<T>>::extend") or res.endswith("::extend"):
                     v = _root_local(f, c2["args"][0])
                     if v is not None and "std::vec::Vec<" in f.local_ty(v):
-                        out.setdefault(v, ("for-loop over %s" % c["targs"][0][:80], c["span"]))
+                        out.setdefault(v, ("for-loop over %s" % (c["targs"][0][:80] if not via_tainted else "an unsorted Vec collected from " + via_tainted["targs"][0][:60]), c["span"]))
         # iterator chains collected into a Vec
         if c.get("fn") in ("std::iter::Iterator::collect",) and _is_s1(c.get("targs", [])):
             dl = place_local(c["dest"])
